@@ -1,19 +1,88 @@
-package c10
+package c10p
 
 import (
 	"context"
 	"encoding/json"
 	"fmt"
+	"net"
 	"sync/atomic"
 	"testing"
 
 	"github.com/caddyserver/caddy/v2"
+	"go.uber.org/zap"
 	"pgregory.net/rapid"
 
+	"github.com/mholt/caddy-l4/layer4"
 	"github.com/mholt/caddy-l4/modules/l4proxy"
 
 	"verifharness/hx"
 )
+
+// (this test lives in a package of its own: it needs the peer-state accessors of the export shim only, not the
+// direct construction of upstreams the other C10 tests use, and stays buildable when the latter does not compile)
+
+func TestMain(m *testing.M) { hx.Main(m) }
+
+var policies = []string{"first", "round_robin", "ip_hash", "least_conn", "random", "random_choose"}
+
+type upSpec struct {
+	Peers    []l4proxy.VerifPeer
+	MaxConns int
+	MaxFails int
+}
+
+// availableRef is the reference predicate, written from the property text: healthy, below its failure limit and
+// below its connection limit (every peer).
+func (u upSpec) availableRef() bool {
+	for _, p := range u.Peers {
+		if p.Unhealthy {
+			return false
+		}
+		if u.MaxFails > 0 && p.Fails >= u.MaxFails {
+			return false
+		}
+		if u.MaxConns > 0 && p.NumConns >= u.MaxConns {
+			return false
+		}
+	}
+	return true
+}
+
+func genUp(t *rapid.T) upSpec {
+	u := upSpec{MaxConns: rapid.IntRange(0, 3).Draw(t, "maxConns")}
+	for i := rapid.IntRange(1, 3).Draw(t, "npeers"); i > 0; i-- {
+		u.Peers = append(u.Peers, l4proxy.VerifPeer{
+			Unhealthy: rapid.IntRange(0, 4).Draw(t, "unhealthy") == 0,
+			Fails:     rapid.IntRange(0, 2).Draw(t, "fails"),
+			NumConns:  rapid.IntRange(0, 3).Draw(t, "conns"),
+		})
+	}
+	return u
+}
+
+func genRemote(t *rapid.T) net.Addr {
+	port := rapid.IntRange(1, 65535).Draw(t, "port")
+	ip := net.IPv4(10, byte(rapid.IntRange(0, 3).Draw(t, "ipb")), 0, byte(rapid.IntRange(1, 9).Draw(t, "ipd")))
+	if rapid.Bool().Draw(t, "udpClient") {
+		return &net.UDPAddr{IP: ip, Port: port}
+	}
+	return &net.TCPAddr{IP: ip, Port: port}
+}
+
+func conn(remote net.Addr) *layer4.Connection {
+	sc := hx.NewScriptConn(nil, hx.EndEOF)
+	sc.Remote = remote
+	return layer4.WrapConnection(sc, nil, zap.NewNop())
+}
+
+func indexOf(pool l4proxy.UpstreamPool, u *l4proxy.Upstream) int {
+	for i, x := range pool {
+		if x == u {
+			return i
+		}
+	}
+	return -1
+}
 
 // The other tests build their pools directly. Here the pool is what the proxy
 // handler provisions from a configuration, as Caddy does, with the limits given
